@@ -62,8 +62,7 @@ fn pick_key(h: &H, r: &mut Rng, wi: usize) -> Key {
         Key::Dir(h.dpool[wi][r.below(h.dpool[wi].len() as u64) as usize])
     } else {
         // forged: small position / generation, any id including undeclared at archetype level
-        let ids = [3u32, 4, 255, 0];
-        let id = ids[r.below(4) as usize];
+        let id = ARCH_IDS[r.below(4) as usize] as u32;
         Key::Ent((((r.below(6) as u32) << 8) | id, 1 + r.below(3) as u32))
     }
 }
